@@ -106,9 +106,13 @@ LabelFails(ev) ==
     ELSE LET A == ev.A
              plain == [ A EXCEPT !.isotope = <<>> ]
              want == FSub(SemMass(NeutralSem(A, TRUE, ev.labelMods), ev.mono), SemMass(NeutralSem(plain, TRUE, FALSE), ev.mono))
-             got == FSub(ev.labelled, ev.plain) IN
+             got == FSub(ev.labelled, ev.plain)
+             shifts == [ q \in 1..Len(ev.byCharge) |-> FSub(ev.byCharge[q].labelled, ev.byCharge[q].plain) ] IN
          IF ~AllResolvable(A, ev.mono) THEN {"MACHINERY_generator_gave_unresolvable_annotation"}
-         ELSE IF FWithin(got, want, BaseTol(ev.mono)) THEN {} ELSE {"label_shift_is_not_atoms_times_isotope_difference"}
+         ELSE (IF FWithin(got, want, BaseTol(ev.mono)) THEN {} ELSE {"label_shift_is_not_atoms_times_isotope_difference"})
+              \cup (IF ev.byChargeOut # "ret" THEN {"raised_" \o ev.byChargeOut} ELSE {})
+              \cup (IF \E q \in 1..Len(shifts) : ~FWithin(shifts[q], shifts[1], BaseTol(ev.mono))
+                    THEN {"label_shift_depends_on_the_charge"} ELSE {})
 
 (* ---------------------------------------------------------------------------------------------------- *)
 (* C18: condensing every modification to a numeric mass shift preserves the peptide.                      *)
@@ -135,6 +139,8 @@ CondenseFails(ev) ==
          \cup (IF ~FWithin(ev.massIn, ev.massOut, FAdd(Micro(2), FMulInt(PrecUnit(ev.prec), Len(shifts))))
                THEN {"mass_not_preserved"} ELSE {})
          \cup (IF A = EmptyAnn(A.seq) /\ ev.res # ev.text THEN {"unmodified_peptide_changed"} ELSE {})
+         \cup (IF ev.again # ev.res THEN {"second_call_on_the_same_object_differs"} ELSE {})
+         \cup (IF ev.argText # ev.text THEN {"argument_object_changed"} ELSE {})
          (* shifts sit on the residues and termini that were modified *)
          \cup (IF localised /\ \E p \in 0..(n - 1) : NonZeroSem(ModsAt(X, p)) /\ labs = <<>> /\ ModsAt(out, p) = <<>>
                THEN {"modified_residue_has_no_shift"} ELSE {})
@@ -208,6 +214,21 @@ Dev_C03_AlternativePrecedence(ev) ==
        /\ \E q \in 1..Len(ms) : Sem(ms[q].v) # SemPref(ms[q].v)
        /\ FWithin(FSub(ev.massRes, gap), viaComp, tol)
 
+(* C18_TabulatedMassRounding: with a global isotope label mass() weighs every named modification by its composition *)
+(* (exact atomic masses), while the shifts written by condense_to_mass_mods come from the 6-decimal tables           *)
+(* (C02_TabulatedMassRounding: up to 5e-7 Da per tabulated unit): with enough named modifications the two masses     *)
+(* differ by more than the rounding of the written shifts.  Exactly: only the mass clause fails, and it holds once    *)
+(* 5e-7 per tabulated unit is allowed.                                                                                *)
+Dev_C18_TabulatedMassRounding(ev) ==
+    LET A == ev.A
+        all == AllModsOf(A)
+        units == FoldLeft(LAMBDA acc, m : acc + m.m * (1 + Sem(m.v).sugars), 0, all)
+        shifts == AllModsOf(ev.parsed) IN
+    /\ ev.k = "condense" /\ ev.out = "ret" /\ ev.parsedOk
+    /\ CondenseFails(ev) = {"mass_not_preserved"}
+    /\ A.isotope # <<>>
+    /\ FWithin(ev.massIn, ev.massOut, FAdd(FAdd(Micro(2), FMulInt(PrecUnit(ev.prec), Len(shifts))), FMulInt(Nano(500), units)))
+
 (* C18_PerResidueExtras: condense_to_mass_mods measures each residue's shift on a one-residue copy of the peptide *)
 (* that still carries everything that is not a residue or explicit terminal modification: unknown-position and    *)
 (* interval modifications, static rules for N-Term / C-Term, the charge with its carriers, and (for labels on H   *)
@@ -240,7 +261,8 @@ Dev_C18_PerResidueExtras(ev) ==
     /\ \A p \in 0..(n - 1) : FWithin(ShiftAt(out, p), FAdd(Own(p), E), slack)
 
 Dev(ev) == IF ev.k = "condense"
-           THEN (IF "C18_PerResidueExtras" \in Devs /\ Dev_C18_PerResidueExtras(ev) THEN "C18_PerResidueExtras" ELSE "")
+           THEN (IF "C18_TabulatedMassRounding" \in Devs /\ Dev_C18_TabulatedMassRounding(ev) THEN "C18_TabulatedMassRounding"
+                 ELSE IF "C18_PerResidueExtras" \in Devs /\ Dev_C18_PerResidueExtras(ev) THEN "C18_PerResidueExtras" ELSE "")
            ELSE IF ev.k \in {"agree", "estimate"}
            THEN (IF "C03_AdductElectronCount" \in Devs /\ Dev_C03_AdductElectronCount(ev) THEN "C03_AdductElectronCount"
                  ELSE IF "C03_AlternativePrecedence" \in Devs /\ Dev_C03_AlternativePrecedence(ev) THEN "C03_AlternativePrecedence"
